@@ -99,8 +99,50 @@ def rule_lib_pitfall(ctx, prefix, fi):
         if f == "filter" and n.args and isinstance(n.args[0], ast.Constant) and n.args[0].value is None:
             bad.append((n, f"`{norm(n)[:70]}` drops every falsy element — a field index 0 (the first field of the "
                            f"Header) is dropped together with the missing ones"))
+    for n in walk_no_nested(fi.node):
+        if not isinstance(n, ast.Call):
+            continue
+        f = norm(n.func)
+        if f in ("np.put", "numpy.put", "np.place", "numpy.place") or (
+                isinstance(n.func, ast.Attribute) and n.func.attr == "put" and len(n.args) >= 2 and
+                not norm(n.func.value).lower().endswith(("queue", "q"))):
+            bad.append((n, f"`{norm(n)[:70]}` repeats or truncates the values to fit the index list, where the subscript "
+                           f"store `a[idx] = values` raises on a length mismatch: a short result (a worker that stopped "
+                           f"early, a truncated input) is spread over the table instead of being reported"))
+        if f in ("np.resize", "numpy.resize"):
+            bad.append((n, f"`{norm(n)[:70]}` refills the array cyclically when the sizes differ instead of raising"))
+        if any(k.arg == "mode" and isinstance(k.value, ast.Constant) and k.value.value in ("wrap", "clip") for k in n.keywords) \
+                and f.split(".")[-1] in ("take", "put", "ravel_multi_index", "choose"):
+            bad.append((n, f"`{norm(n)[:70]}` maps out-of-range indices onto valid ones instead of raising"))
+    # narrow numeric containers: byte offsets reach and pass 2**31 in production files, header numbers and box data
+    # are float64 on disk; a 32-bit (or smaller) dtype literal wraps / overflows the first and rounds the second
+    NARROW = {"int32", "int16", "int8", "uint32", "uint16", "uint8", "float32", "float16", "single", "half", "intc",
+              "short", "f4", "f2", "i4", "i2", "i1", "u4", "u2", "u1", "<f4", "<i4", ">f4", ">i4"}
+
+    def narrow(e):
+        if isinstance(e, ast.Attribute) and e.attr in NARROW:
+            return norm(e)
+        if isinstance(e, ast.Constant) and isinstance(e.value, str) and e.value in NARROW:
+            return repr(e.value)
+        return None
+    for n in walk_no_nested(fi.node):
+        if not isinstance(n, ast.Call):
+            continue
+        hits = [narrow(k.value) for k in n.keywords if k.arg == "dtype"]
+        if isinstance(n.func, ast.Attribute) and n.func.attr in ("astype", "view") and n.args:
+            hits.append(narrow(n.args[0]))
+        if norm(n.func).split(".")[-1] in ("array", "asarray", "zeros", "empty", "ones", "full", "fromfile", "frombuffer") \
+                and len(n.args) >= 2:
+            hits.append(narrow(n.args[1]))
+        if isinstance(n.func, ast.Attribute) and n.func.attr in NARROW and isinstance(n.func.value, ast.Name) and \
+                n.func.value.id in ("np", "numpy"):
+            hits.append(norm(n.func))
+        for h in [h for h in hits if h]:
+            bad.append((n, f"`{norm(n)[:70]}` stores file-derived numbers in a {h} container: byte offsets of 2 GiB and "
+                           f"more wrap or overflow in 32 bits, and float64 header values / box data are rounded (or "
+                           f"flushed to 0 / inf) in float32"))
     ctx.check(not bad, f"{prefix}.LIB-PITFALL", fi.site,
-              "no data-dependent squeeze / falsy filtering in the table handling of this function",
+              "no data-dependent squeeze / falsy filtering / narrow numeric container in the table handling of this function",
               "; ".join(m for _, m in bad[:2]), key="lib-pitfall", where=loc(fi, bad[0][0]) if bad else None,
               semantic=True)
 
